@@ -577,10 +577,10 @@ def propagate_new_locals(fn, known_names, pure_only=False):
                     _, top, u = use_stmts[0]
                     if isinstance(top, (ast.For, ast.While, ast.If, ast.With, ast.Try)) and not _in_header(u, top, parent):
                         continue
-            # an expression that can raise is evaluated unconditionally where it is defined: it may not move into a
+            # an expression with calls that can raise is evaluated unconditionally where it is defined: it may not move into a
             # position that is evaluated only sometimes (a branch of a conditional expression, a later operand of and/or,
             # a lambda body, a comprehension element) - there it would no longer raise for the inputs that skip it
-            if _may_raise(E) and any(not _unconditional(u_, top_, parent) for _, top_, u_ in use_stmts):
+            if not pure and _may_raise(E) and any(not _unconditional(u_, top_, parent) for _, top_, u_ in use_stmts):
                 continue
             sub = _Subst({v: E})
             for _, top, _u in use_stmts:
